@@ -157,18 +157,20 @@ def check(ctx):
 
     # ---- R20-b no internal error escapes ----------------------------------------------------------------------------------------------------
     loads = [n for n in own_walk(fn) if isinstance(n, ast.Subscript) and _is_ce(n.value) and isinstance(n.ctx, ast.Load)]
-    ctx.need("R20-b", call, f"lookups `{CE}[key]`", len(loads), 2)
+    gets = [n for n in own_walk(fn) if isinstance(n, ast.Call) and isinstance(n.func, ast.Attribute) and n.func.attr == "get" and _is_ce(n.func.value)]
+    ctx.need("R20-b", call, f"lookups of the key in `{CE}` (first look-up and the re-read under the lock)", len(loads) + len(gets), 2)
     for ld in loads:
         tr = enclosing(ld, (ast.Try,), stop=fn)
         guarded = tr is not None and any("KeyError" in ast.unparse(h.type) for h in tr.handlers if h.type is not None) and \
             any(ld in list(ast.walk(s)) for s in tr.body)
-        ok = guarded or in_lock(ld)
-        ctx.ob("R20-b", call, "a lookup is either guarded by `except KeyError` or made by a caller holding the key's lock (presence by R20-a)", ok,
-               node=stmt_of(ld), detail="" if ok else f"`{norm(stmt_of(ld))}` can raise KeyError into the caller", by=("guarded" if guarded else "inside async with lock",))
-        if ok and not guarded:
-            isk = isinstance(ld.slice, ast.Name) and ld.slice.id == KEY
-            ctx.ob("R20-b", call, "the re-read under the lock uses this call's key", isk, node=stmt_of(ld),
-                   detail="" if isk else f"`{norm(stmt_of(ld))}` re-reads another key", by=("cache_entry[key]",))
+        # a completed result can be evicted while a waiter is queued on its (former) lock, so holding the lock does not imply
+        # presence (F12): every subscript look-up has to be guarded, the re-read has to use a tolerant form
+        ctx.ob("R20-b", call, "a subscript look-up of the entry mapping is guarded by `except KeyError`", guarded,
+               node=stmt_of(ld), detail="" if guarded else f"`{norm(stmt_of(ld))}` can raise KeyError into the caller: the entry may have been stored and evicted again "
+                                                         f"while this caller was waiting for the lock", by=("except KeyError",))
+    for g in gets:
+        isk = len(g.args) >= 1 and isinstance(g.args[0], ast.Name) and g.args[0].id == KEY
+        ctx.ob("R20-b", call, "the tolerant re-read uses this call's key", isk, node=stmt_of(g), detail="" if isk else f"`{norm(stmt_of(g))}` re-reads another key", by=(f"{CE}.get({KEY})",))
 
     # ---- R20-c single flight ----------------------------------------------------------------------------------------------------------------
     wcalls = [n for n in own_walk(fn) if isinstance(n, ast.Await) and isinstance(n.value, ast.Call) and ast.unparse(n.value.func) == "self.__wrapped__"]
@@ -190,22 +192,34 @@ def check(ctx):
     ctx.ob("R20-c", call, "the caching-path computation is inside `async with lock`", n_locked == 1,
            detail="" if n_locked == 1 else f"{n_locked} wrapped calls inside `async with {lockname}` (expected 1)", by=("lexically inside async with lock",))
     # the placeholder test is a re-read made after the lock was acquired
+    ENT = None
     if lockw is not None:
         first = [s for s in lockw.body if not isinstance(s, (ast.Pass,)) and not (isinstance(s, ast.Expr) and isinstance(s.value, ast.Constant))]
         reread = False
-        if first and isinstance(first[0], (ast.If, ast.Assign, ast.AnnAssign)):
-            head = first[0].test if isinstance(first[0], ast.If) else first[0]
-            reread = any(isinstance(x, ast.Subscript) and _is_ce(x.value) for x in ast.walk(head))
-            if isinstance(first[0], (ast.Assign, ast.AnnAssign)):
-                # `cached_value = cache_entry[key][0]` followed by the test
-                tg = first[0].targets[0] if isinstance(first[0], ast.Assign) else first[0].target
-                reread = reread and isinstance(tg, ast.Name) and tg.id == CV
-            else:
-                reread = reread and any(isinstance(x, ast.NamedExpr) and x.target.id == CV for x in ast.walk(head)) or \
-                    (reread and CV not in {x.id for x in ast.walk(head) if isinstance(x, ast.Name)})
-        ctx.ob("R20-c", call, "the placeholder test re-reads the entry after the lock was acquired", reread, node=first[0] if first else lockw,
-               detail="" if reread else "the first statement under the lock does not re-read cache_entry[key]: a waiter would act on the value it saw before "
-                                        "waiting and run the wrapped function a second time", by=("cached_value := cache_entry[key][0]",))
+        if first and isinstance(first[0], (ast.Assign, ast.AnnAssign)):
+            tg = first[0].targets[0] if isinstance(first[0], ast.Assign) else first[0].target
+            v = first[0].value
+            if isinstance(tg, ast.Name) and v is not None and any((isinstance(x, ast.Subscript) and _is_ce(x.value)) or (isinstance(x, ast.Call) and x in gets) for x in ast.walk(v)):
+                reread = True
+                ENT = tg.id
+        ctx.ob("R20-c", call, "the first thing done under the lock is to re-read the entry for the key", reread, node=first[0] if first else lockw,
+               detail="" if reread else "the first statement under the lock does not re-read the entry: a waiter would act on the value it saw before "
+                                        "waiting and run the wrapped function a second time", by=(f"entry = {CE}.get({KEY})",))
+        if ENT:
+            # the placeholder test looks at the re-read entry
+            tests = [n for n in own_walk(lockw) if isinstance(n, ast.NamedExpr) and n.target.id == CV]
+            okt = len(tests) == 1 and ast.unparse(tests[0].value) == f"{ENT}[0]"
+            ctx.ob("R20-c", call, "the placeholder test is made on the re-read entry", okt, node=stmt_of(tests[0]) if tests else lockw,
+                   detail="" if okt else f"`{CV}` is not taken from `{ENT}[0]` under the lock", by=(f"{CV} := {ENT}[0]",))
+            # a waiter whose entry vanished (stored and evicted again) or now belongs to another in-flight computation starts over:
+            # computing under the stale lock would run the function concurrently with the holder of the new placeholder
+            for w in [w for w in wcalls if in_lock(w)]:
+                ctx.require_at("R20-c", call, stmt_of(w), [[f"not {ENT} is None", f"{ENT}[1] is {lockname}"], [f"not {ENT} is None", f"{ENT}[1] is None"]],
+                               instance="the computation runs only for an entry that still exists and is not owned by another computation's lock", what="wrapped call")
+            conts = [n for n in own_walk(lockw) if isinstance(n, ast.Continue)]
+            okc = len(conts) >= 1 and lexically_inside(lockw, lambda x: isinstance(x, ast.While), stop=fn)
+            ctx.ob("R20-c", call, "a waiter that finds its entry gone or replaced retries the whole look-up", okc, node=conts[0] if conts else lockw,
+                   detail="" if okc else "no `continue` of an enclosing retry loop under the lock", by=("while True: ... continue",))
         # the lock comes from the entry for this key
         unp = ctx.sites(call, f"$V, {lockname}, $X = {CE}[{KEY}]")
         ctx.ob("R20-c", call, "the lock waited on is the one stored in the entry for this key", len(unp) == 1,
